@@ -23,10 +23,16 @@ CFG = dict(
         level_note="Partial by design: atomicity of one badger Set/Delete and of one SQL transaction (ref + reflog), and the durability "
                    "ORDER between the object store and the ref store, are hypotheses (one model write = one atomic, ordered step). "
                    "The theorems are about the hand-written write-list model; they hold under skels_ok (checked by the tie on the "
-                   "regenerated skeletons). The operations are driven at the library layer with the CLI's call sequence copied "
-                   "(commit_cmd.go commit/commitWithTable, merge_cmd.go runMerge/commitMergeResult/createMergeCommit, fetch "
-                   "saveFetchedRefs), commit time derived from the nonce instead of time.Now(); the real CLI is run un-crashed for a few "
-                   "histories. The real-binary kill hook (VERIF_CRASH_AT) is not used. Re-run of fetch is proved for a run whose object "
+                   "regenerated skeletons). REAL operations on the injected recording / fault-injecting stores: prune.Prune, the exported fetch.Fetch "
+                   "(batch fetch-real, against the in-process reference server harness/c09_server.go: crash-from-n and single failing "
+                   "write n on object AND ref writes, then a healthy re-run), ingest.IngestTable / IngestTableFromBlocks, "
+                   "ObjectReceiver.Receive, the merger. STILL RE-ENACTED (unexported functions of cmd/wrgl taking no stores): commit, "
+                   "commitWithTable, runMerge / commitMergeResult / createMergeCommit, and saveFetchedRefs in batch fetch (packfile "
+                   "sequences chosen by the generator incl. hostile ones) - their call sequences are copied, commit time derived from the "
+                   "nonce; their write ORDER is tied by the translator skeletons. The real CLI (wrgl.RootCmd on badger+sqlite) is run "
+                   "un-crashed: three histories compared with the library-level run, and histories with SHALLOW commits (wrgl pull / "
+                   "fetch --depth against the reference server, then wrgl merge in default / --no-ff / --ff-only / --ff and wrgl pull "
+                   "--depth) judged for the invariants after every command. The real-binary kill hook (VERIF_CRASH_AT) is not used. Re-run of fetch is proved for a run whose object "
                    "phase had succeeded, re-run with the same objects. Not findings but theorems about leftovers: orphan tables of an "
                    "interrupted commit are never swept while no commit is removable (C13_prune_orphan_table_not_swept); a crash between "
                    "DeleteTable and DeleteTableIndex leaks the index/profile (C13_prune_rerun_leaves_index_garbage); merge writes the "
@@ -37,7 +43,7 @@ CFG = dict(
              "merges (modify / add / remove rows, 1..3 blocks, 1..4 workers), fast-forward both ways, identical, ff=never; fetch of "
              "sequences produced by the real ObjectSender (full, incremental, one object per packfile, after an interrupted fetch, "
              "rejected and forced non-fast-forward, shallow) and hostile orders (table before blocks, commit before parent, block-index "
-             "mismatch, advertised commit missing); prune with orphans sharing blocks/tables, early return, after interrupted prunes; orphan sub-DAGs of 4..9 commits with forks and merges of unequal branch lengths (fetched through the real ObjectSender under one branch per tip, branches deleted): fixed witnesses (a<-b<-c<-e + a<-d, orphan merge of two orphan branches, lopsided diamonds, two roots) and random DAGs, every prefix of the commit-deletion phase judged for Closed; "
+             "mismatch, advertised commit missing); the real fetch.Fetch against the reference server (full, incremental, two branches, rejected / forced non-fast-forward, after an interrupted fetch incl. 'all objects stored, ref not written', random chains); CLI histories with shallow commits; prune with orphans sharing blocks/tables, early return, after interrupted prunes; orphan sub-DAGs of 4..9 commits with forks and merges of unequal branch lengths (fetched through the real ObjectSender under one branch per tip, branches deleted): fixed witnesses (a<-b<-c<-e + a<-d, orphan merge of two orphan branches, lopsided diamonds, two roots) and random DAGs, every prefix of the commit-deletion phase judged for Closed; "
              "random histories of 2..6 steps (commit, crashed commit, branch, delete branch, fetch, prune) followed by a random "
              "operation. EVERY case enumerates ALL crash prefixes n=0..L (re-run from each) and a write error at every position. "
              "distinct = distinct case text; non-trivial = the operation performs at least one write on a non-empty table / history",
